@@ -7,6 +7,7 @@ import (
 	"git.apache.org/thrift.git/lib/go/thrift"
 	erpc "github.com/henrylee2cn/erpc/v6"
 	"github.com/henrylee2cn/erpc/v6/socket"
+	"github.com/henrylee2cn/erpc/v6/xfer/gzip"
 )
 
 func init() {
@@ -374,4 +375,44 @@ func VX_C05_ThriftRetained(args []int) {
 		vxAssert(string(*(g.Body().(*[]byte))) == string(bodies[k]), "retained message keeps its body")
 	}
 	vxCover("c05.thrift.retained")
+}
+
+func init() {
+	vxRegister("VX_C05_ThriftPipeSeq", VX_C05_ThriftPipeSeq)
+	gzip.Reg('g', "gzip", 5)
+}
+
+// VX_C05_ThriftPipeSeq: frames with and without a transfer filter alternate on
+// one thrift-binary connection: each decodes to its own filter list and body
+// (nothing carried over from the frame before). args: nBody
+func VX_C05_ThriftPipeSeq(args []int) {
+	vxStepBudget(80)
+	body := make([]byte, 0, args[0])
+	for len(body) < args[0] {
+		body = append(body, []byte("thrift payload ")...)
+	}
+	body = body[:args[0]]
+	w := &vxTBuf{}
+	pw := NewBinaryProtoFunc()(w)
+	pr := NewBinaryProtoFunc()(w)
+	pipes := []bool{false, true, false, true, false}
+	for k, piped := range pipes {
+		m := vxTMsg(int32(k+1), body)
+		if piped {
+			m.XferPipe().Append('g')
+		}
+		vxAssume(pw.Pack(m) == nil)
+	}
+	for k, piped := range pipes {
+		g := vxNewGot()
+		err := pr.Unpack(g)
+		vxAssert(err == nil, "frame decodes")
+		want := 0
+		if piped {
+			want = 1
+		}
+		vxAssert(g.Seq() == int32(k+1) && g.XferPipe().Len() == want, "each frame decodes to its own transfer-filter list")
+		vxAssert(err != nil || bytes.Equal(*(g.Body().(*[]byte)), body), "and to its own body")
+	}
+	vxCover("c05.thrift.pipeseq")
 }
